@@ -475,10 +475,11 @@ func (lg *ledger) variadicElems(v ssa.Value) []ssa.Value {
 // typeValuesOf: SSA values in this function that denote Type(v).
 func (lg *ledger) typeValuesOf(v ssa.Value) []ssa.Value {
 	want := "Type(" + lg.key(v) + ")"
+	static := lg.rtypeKeyOfValue(v) // (or any value that denotes the same statically known type)
 	var out []ssa.Value
 	for _, b := range lg.fn.Blocks {
 		for _, ins := range b.Instrs {
-			if val, ok := ins.(ssa.Value); ok && lg.key(val) == want {
+			if val, ok := ins.(ssa.Value); ok && (lg.key(val) == want || (static != "" && lg.rtypeKey(val) == static)) {
 				out = append(out, val)
 			}
 		}
@@ -491,6 +492,9 @@ func (lg *ledger) valueTypeKeys(x ssa.Value) []string {
 	keys := []string{"Type(" + lg.key(x) + ")"}
 	if args, ok := reflectFunc(x, "ValueOf"); ok {
 		keys = append(keys, "TypeOf("+lg.key(args[0])+")")
+	}
+	if rk := lg.rtypeKeyOfValue(x); rk != "" {
+		keys = append(keys, rk)
 	}
 	if args, ok := reflectFunc(x, "Zero"); ok {
 		keys = append(keys, lg.key(args[0]))
@@ -758,6 +762,9 @@ func (lg *ledger) setAssignable(recv, x ssa.Value, blk *ssa.BasicBlock) (bool, s
 	if r2, _, ok := reflectValueCall(recv, "Elem"); ok {
 		if args, ok := reflectFunc(r2, "New"); ok {
 			rkeys = append(rkeys, lg.key(args[0]))
+			if rk := lg.rtypeKey(args[0]); rk != "" {
+				rkeys = append(rkeys, rk)
+			}
 		} else if phi, ok := r2.(*ssa.Phi); ok {
 			_ = phi
 		}
